@@ -61,6 +61,29 @@ Theorem C02_unknown_messages_do_nothing : forall cfg user send_ok st a o,
 Proof. exact step_other. Qed.
 Print Assumptions C02_unknown_messages_do_nothing.
 
+(* ... and of every run of the executable model that the checks compare with the implementation: its
+   effects are those of the trace of some history from the initial state (then the final drops), and
+   the state it ends in has one live handler per (address, flow id) and never reused a handler id *)
+From Portus Require Import TraceFacts RunTrace.
+Theorem C02_every_run_ends_in_a_good_state : forall cfg user send_ok bufsize stopped0 evs es res,
+  run_model cfg user send_ok bufsize stopped0 evs = (es, res) -> cfg_compile_ok cfg = true ->
+  exists h st' t, trace cfg user send_ok init_state h = Some (st', t) /\ ends_as cfg user send_ok st' t es /\
+                  handles_ok st' /\ hids_ok st'.
+Proof. exact run_model_ends_in_a_good_state. Qed.
+Print Assumptions C02_every_run_ends_in_a_good_state.
+
+(* which history: for every script of datagrams, receive errors and stop requests, the messages a run
+   dispatches are, in order, what the receive path yields for the script -- each datagram, cut to the
+   buffer, decoded on its own (spec_run, C08's specification) -- all of them, unless a failed send
+   during an installation ended the run at one of them.  Install-before-use holds of the trace. *)
+From Portus Require Import Cursor CursorFacts.
+Theorem C02_the_history_is_what_the_datagrams_decode_to : forall cfg user send_ok bufsize evs es res,
+  run_model cfg user send_ok bufsize false evs = (es, res) -> cfg_compile_ok cfg = true ->
+  exists h st' t, trace cfg user send_ok init_state h = Some (st', t) /\ scan cfg [] t /\
+                  ends_on cfg user send_ok st' t es h (hist (spec_run bufsize evs)).
+Proof. exact run_model_history. Qed.
+Print Assumptions C02_the_history_is_what_the_datagrams_decode_to.
+
 (* translator obligations (lib/gen_statespace.py reads the structs, statics and mutable bindings of the
    modelled code on every run): the code has the state the model represents and no other *)
 From Portus Require Import StateTie.
